@@ -81,7 +81,7 @@ type cand struct {
 	expSec   int64 // 0 = no expiry
 	xlo, xhi int64
 	// local_deletion
-	deadline int64   // first expiry second given in this incarnation (0 = none)
+	deadline int64 // first expiry second given in this incarnation (0 = none)
 	later    int64 // earliest expiry second given later in this incarnation (0 = none)
 	stale    int64 // earliest expiry second given to earlier incarnations of the key name (0 = none)
 	// evidence flags (do not take part in comparisons)
